@@ -5,12 +5,15 @@ from fractions import Fraction as Fr
 import engine
 import prop
 import streams
-from common import sub_seed, size
+from common import sub_seed, size, parse_q
 
 THEOREMS = ["LNN.C20_local",
             "LNN.C20_local_pass",
             "LNN.C20_verdict_final",
-            "LNN.C20_restricted_not_tighter"]
+            "LNN.C20_restricted_not_tighter",
+            "LNN.C20_fol_call_local",
+            "LNN.C20_fol_pass_local",
+            "LNN.C20_fol_local"]
 MODULES = ["LnnVerif.Props.C20"]
 FACETS = {"bounds", "reported", "contra"}
 
@@ -102,6 +105,77 @@ def run(rep, tier, seed):
                        "needed >= 2 sweeps, moved a bound, and >= 2 formulae lie outside")
     if first and not rep.violations:
         rep.extra["first_disagreement"] = {"case": streams.ser(first[0]["prog"]), "at": first[1][:3]}
+    run_fol(rep, tier, seed)
+
+
+def fol_oracle(rec):
+    """locality of restricted first-order inference, and: it derives nothing the full run does not"""
+    import fol
+    m = rec["meta"]
+    if m["errors"]:
+        return {"exception": m["errors"]}
+    inside = set(m["inside"])
+    called = [i for i in m["restricted_calls"] if i not in inside]
+    if called:
+        return {"problem": "restricted traversal called formulae outside the source's sub-graph", "called": called, "source_subgraph": sorted(inside)}
+    t0, t1, t2 = fol.parse_tab(m["before"]), fol.parse_tab(m["restricted"]), fol.parse_tab(m["full"])
+    for i in m["ids"]:
+        if i not in inside and t0.get(i, {}) != t1.get(i, {}):
+            return {"problem": "restricted inference changed a formula outside the source's sub-graph", "formula": i,
+                    "before": {g: list(map(str, b)) for g, b in t0.get(i, {}).items()},
+                    "after": {g: list(map(str, b)) for g, b in t1.get(i, {}).items()}}
+    if not m["full_contra"]:
+        for i, rows in t1.items():
+            w = tuple(parse_q(x) for x in m["worlds"][i]) if i in m["worlds"] else None
+            for g, (lo, hi) in rows.items():
+                full = t2.get(i, {}).get(g, w)
+                if full is not None and (lo > full[0] or hi < full[1]):
+                    return {"problem": "restricted inference derived a bound the full run does not", "formula": i, "grounding": g,
+                            "restricted": [str(lo), str(hi)], "full": [str(full[0]), str(full[1])]}
+    return None
+
+
+def gen_fol_case(seed, k):
+    import fol
+    rng = random.Random(sub_seed(seed, "c20fol", k))
+    quant = k % 2 == 1
+    prog = streams.gen_fol_program(seed + 83, k, quant=quant, n_ops=(0, 0), n_conn=(2, 4), parents=(1.0 if k % 4 == 3 else True))
+    kb = prog["kb"]
+    cands = [p["id"] for p in kb["preds"]] * 2 + [n["id"] for n in kb["nodes"]]
+    return {"kb": kb, "facts": prog["facts"], "source": rng.choice(cands), "mode": rng.choice(["source", "source", "query"])}
+
+
+def run_fol(rep, tier, seed):
+    n = size(tier, 100, 1500)
+    cases = [gen_fol_case(seed, k) for k in range(n)]
+    recs = engine.run_cases("fol", "run_c20_fol", cases, chunksize=2)
+    for r, c in zip(recs, cases):
+        r["prog"] = c
+    engine.model_outputs([r for r in recs if "lines" in r])
+    ndis = ncmp = 0
+    first = None
+    crashes = [r for r in recs if "crash" in r]
+    for r in recs:
+        if "crash" in r:
+            continue
+        dis, safe, nc = engine.compare_record(r, {"tables", "reported"})
+        r["safe_upto"] = safe
+        ncmp += nc
+        if dis:
+            ndis += 1
+            first = first or (r, dis)
+        m = r["meta"]
+        outside = [i for i in m["ids"] if i not in m["inside"]]
+        rep.count_case(streams.canon(r["prog"]), len(outside) >= 2 and m["before"] != m["restricted"])
+        bad = fol_oracle(r)
+        if bad:
+            rep.violation("fol-restricted-inference", bad, {"case": streams.ser(r["prog"]), "failure": bad})
+    rep.bump("fol-restricted_cases", len(recs))
+    rep.obligation("correspondence:fol-restricted", ndis == 0, f"{len(recs)} cases, {ncmp} lines compared, {ndis} disagree")
+    rep.obligation("harness:fol-restricted:every-program-ran", not crashes,
+                   "" if not crashes else f"{len(crashes)} crashed; first: {crashes[0]['crash']}")
+    if first and not rep.violations:
+        rep.extra["first_disagreement_fol"] = {"case": streams.ser(first[0]["prog"]), "at": first[1][:3]}
 
 
 def replay(obj):
